@@ -468,6 +468,32 @@ template <class E> Segment c12ExecSegment(long nQ, long nT) {
     return s;
 }
 
+// C12 upper working levels 0..height+1 for any task-based executor pair (used by the mock Specx / StarPU engines)
+template <class E, template <class, class, class> class Algo, template <class, class, class> class AlgoTsm> Segment c12UpperSegment(const std::string& name, long nQ, long nT) {
+    Segment s; s.name = "c12-upper-" + name + "-D" + vh::str(E::Cfg::Dim);
+    s.count = [=](bool th) { return th ? nT : nQ; };
+    s.run = [=](long kk, uint64_t seed, bool th, Result& res) {
+        vh::Rng r(vh::mix(seed ^ 0xC12F, uint64_t(kk) * 4 + E::Cfg::Dim));
+        auto pick = [&](int n) { std::vector<Sched> v; for (int i = 0; i < n; ++i) v.push_back({int(1 + r.below(8)), int(r.below(vsched::NB_POLICIES)), r.next() % 100000}); return v; };
+        const long defUp = E::Space::IsPeriodic ? 1 : 2;
+        const std::string tag = "c12-" + name;
+        if (kk % 2 == 0) {
+            auto c = fmm::randomConf<E>(r, vh::mix(seed, kk), 100, false, 1);
+            const long H = c.geo.H;
+            res.desc = fmm::confDesc<E>(c) + " executor=" + name + "(mock runtime) history=upper-levels 0.." + vh::str(H + 1);
+            for (long up = 0; up <= H + 1; ++up) { auto cc = c; cc.upper = up; ompSingle<E, Algo>(cc, pick(th ? 2 : 1), res, tag.c_str(), false, up == defUp); res.ev("upper-level-runs"); }
+            res.sig = name + "-upper:" + fmm::confSig<E>(c, vh::mix(c.seed, 12)); res.nontrivial = H >= 3;
+        } else {
+            auto c = fmm::randomTsmConf<E>(r, vh::mix(seed, kk), 80, 1);
+            const long H = c.geo.H;
+            res.desc = fmm::tsmDesc<E>(c) + " executor=" + name + "Tsm(mock runtime) history=upper-levels 0.." + vh::str(H + 1);
+            for (long up = 0; up <= H + 1; ++up) { auto cc = c; cc.upper = up; ompTsm<E, AlgoTsm>(cc, pick(th ? 2 : 1), res, tag.c_str(), false, up == defUp); res.ev("upper-level-runs"); }
+            res.sig = name + "-tsm-upper:" + vh::str(vh::mix(c.seed, 12)); res.nontrivial = H >= 3;
+        }
+    };
+    return s;
+}
+
 template <class E> Segment c18OmpSegment(long nQ, long nT, bool tsan) {
     constexpr int D = E::Cfg::Dim;
     using Real = typename E::Cfg::RealType;
